@@ -417,7 +417,7 @@ PROPS = {
                 "conc pool semantics (first error recorded before cancel) as read from the pinned source; the verif hooks in lib/common/cpr; the race detector.",
         "rule": "streams: seq (in-process cpr.Seq on generated stage functions with failure specs, schedule perturbed by KNUT_VERIF_SEED and in-function yields; "
                 "result vs model, item-labelled trace vs Lean acceptor/monitor), trace (knut commands on generated journals with KNUT_VERIF_TRACE; trace vs acceptor, "
-                "output vs unperturbed run), race (processor matrix under the -race binary with several seeds), loader (include trees incl. error trees: census vs model, "
+                "output vs unperturbed run), race (processor matrix under the -race binary with several seeds), loader (include trees incl. error trees, every file with a drawn byte layout: how it begins, what separates directives, how it ends - no final newline after any kind of directive, blanks, CRLF, comment without newline, include first/last/only; census vs model, "
                 "no-loss/no-dup monitor, timeouts), grow (journals over 100-600 days in which accounts of depth 2-5, commodities, positions and daily prices keep appearing "
                 "x balance/register with -v and every -m level 1-4 plus random combinations of -m rules, --remap, filters, -s, intervals, windows, --diff, --close=false; race detector and normal binary, perturbed schedules). "
                 "A class = (stream, stages/items bucket, failure shape) resp. (command, flags) resp. (tree shape, error kind).",
